@@ -34,7 +34,7 @@ LEVEL_NOTE = (
     "Matrix comparisons use a tolerance of 1e-6 relative to the largest magnitude met in the dense recursion and are "
     "skipped (structure still checked) when the reference matrix has condition number above 1e6 or a pair is almost "
     "orthogonal (|s||y| > 1e4 s.y); positive definiteness: smallest eigenvalue of the symmetrised compact-form matrix, "
-    "strictly positive for condition numbers up to 1e4; exact comparisons for stored points, counts, order, eviction "
+    "strictly positive whenever the tolerance is below half the smallest eigenvalue of the reference; exact comparisons for stored points, counts, order, eviction "
     "and the no-op on reject."
 )
 TECHNIQUE = "deterministic simulation: stateful operation histories (incl. failed operations and restore) against an executable reference model; in-run interception"
@@ -145,7 +145,10 @@ def check_memory(X, G, mats, maxcor, eps, stats, check_matrix=True):
     lam_min = float(np.min(np.linalg.eigvalsh(0.5 * (b + b.T))))
     # strictly positive where the reference matrix is comfortably conditioned, otherwise up to the
     # accuracy of the comparison itself
-    if not (lam_min > 0.0 if cond <= 1e4 else lam_min > -tol):
+    lam_ref = float(np.min(np.linalg.eigvalsh(0.5 * (b_ref64 + b_ref64.T))))
+    # strictly positive whenever the comparison is accurate enough to tell (tolerance below half the
+    # smallest eigenvalue of the reference), otherwise positive up to that tolerance
+    if not (lam_min > 0.0 if tol < 0.5 * lam_ref else lam_min > -tol):
         out.append(("matrix_not_positive_definite", {"cond": float(cond), "lambda_min": lam_min}))
     s, y = pairs[-1]
     sec = float(np.max(np.abs(b @ s - y)))
